@@ -5,7 +5,10 @@ dilation on one spatial axis, tuple / 'valid' padding, bias-free linear layers a
 activation bits (single-precision MPS, so export() is deterministic; a small family with activation precisions alternating
 along the network) x back-end option (MATCH default / two smaller scale_bit, shift_pos settings, MAUPITI) x clip calibration
 (every PACT clip value set to 1.0 / 0.6 of the activation range it observes on the witness batch, so that the integer
-activations use their range and top-of-range clipping happens).
+activations use their range and top-of-range clipping happens) x protocol (warm: the model handed to integerize_arch has just run on the
+witness batch with its final clip values; cold-write / cold-load: a freshly re-built and exported twin receives the calibrated clip values by
+a direct write / by load_state_dict(strict=True) of the calibrated model's state_dict and is handed to integerize_arch straight away, before
+any inference; the fake-quantized reference is evaluated afterwards on a separate deep copy of the calibrated model).
 
 Oracle `intbackend_ref` (this module): the integer network produced by integerize_arch is run once on the witness batch with
 forward hooks on every integer Conv2d / Linear; every such layer is one step of the integer trace.  For each step the
@@ -42,7 +45,13 @@ RULE = ('programs: sequential / depthwise-separable programs of G_mps (conv, con
         'fully-convolutional tail); weight bits x activation bits: complete {2,4,8}^2 on the core programs, 3 pairs beyond; alternating activation precisions '
         '(lo,hi) on a sub-family; back-end options: MATCH (scale_bit, shift_pos) in {(24,24) default, (16,24), (12,12)} and MAUPITI; calibration of every PACT '
         'clip value to {1.0, 0.6} x observed range; every integer Conv2d / Linear of every configuration is compared with its fake-quantized counterpart on '
-        'the activations produced by the integer network itself; non-trivial = a configuration in which at least one integer layer\'s outputs span more than '
+        'the activations produced by the integer network itself; protocols: warm (integerize_arch receives a deep copy of the calibrated model, which has run on '
+        'the witness batch) on every configuration + integerized-cold (a freshly built and exported twin of the same network gets the calibrated clip values '
+        'without a forward pass - cold-write: clip_val.data.fill_, cold-load: load_state_dict(strict=True) of the calibrated state_dict - and is handed to '
+        'integerize_arch straight away; the reference is evaluated afterwards on a separate deep copy) on every configuration in the thorough tier and '
+        'rotated over every third (program, bits, calibration) with a rotating back-end option in the quick tier; a cold violation is signed '
+        '<sig>/integerized-cold(<spelling>) unless the warm protocol shows the identical signature on the same configuration; '
+        'non-trivial = a configuration (protocol included in its key) in which at least one integer layer\'s outputs span more than '
         'half of the range of its output precision')
 ASSUMPTIONS = ['"random in-range inputs" are decided on a seeded witness batch in [0,1) (3 random samples + 1 binarised sample); the seed only picks weights and witness inputs',
                'PACT clip values are calibrated on the witness batch (any positive clip value is reachable by training); default clip values leave the integer range almost unused',
@@ -51,6 +60,8 @@ ASSUMPTIONS = ['"random in-range inputs" are decided on a seeded witness batch i
                'MAUPITI activations are offset-signed: integer + 2^(p-1) is the unsigned level, p the precision of the quantizer that produced the activation',
                'range of the scaled bias is checked on add_bias (bias x scale); the MAUPITI zero point (bias + offset terms) is not range-checked',
                'final-layer tolerance: own scale approximation + stabiliser share + 1e-3 relative + 2 units of s_x s_w',
+               'integerized-cold protocols: the twin is the same fake-quantized network as the calibrated model iff their state_dicts are equal (checked, keys and tensors); '
+               'whatever else a quantizer caches between forward passes is not part of the network and must not influence integerize_arch',
                'grammar programs in which a BatchNorm would see a 1x1 map are excluded: MPS() itself cannot convert them (BN in training mode on a single value)',
                'signatures: a violation is signed kind / back-end / structural features of the layer (dilated axis, depthwise, asymmetric or "valid" padding, no bias, in != out '
                'precision, final layer); "no-bias" alone is used only for UnboundLocalError(int_bias) on a layer whose bias is None; "asymmetric-padding" alone only when the observed '
@@ -66,12 +77,14 @@ def bounds(tier):
     return {'quick': {'G_mps_sequential_depth': 'none beyond the core list (1-3 stages)', 'core_programs': len(_core_programs()), 'hand_programs': len(_hand_programs()),
                       'bits': 'complete {2,4,8}^2 on core and hand programs', 'mixed_activation_programs': len(_mixed_programs('quick')),
                       'mixed_activation_patterns': '(lo,hi) in {(2,8),(4,8),(2,4)} alternating from lo / from hi, w=4', 'backend_options': len(BACKENDS),
-                      'calibrations': CALIBS, 'weight_draws': 1, 'witness_batch': 4},
+                      'calibrations': CALIBS, 'weight_draws': 1, 'witness_batch': 4,
+                      'protocols': 'warm everywhere + integerized-cold (cold-write / cold-load) on every third (case, calibration) pair, one rotating back-end option'},
             'thorough': {'G_mps_sequential_depth': 3, 'core_programs': len(_core_programs()), 'hand_programs': len(_hand_programs()),
                          'bits': 'complete {2,4,8}^2 on core, hand and all sequential G_mps programs of depth <= 2 (+ option deviations), 3 pairs on depth-3 programs',
                          'mixed_activation_programs': len(_mixed_programs('thorough')),
                          'mixed_activation_patterns': '(lo,hi) in {(2,8),(4,8),(2,4)} alternating from lo / from hi, w in {2,4,8}', 'backend_options': len(BACKENDS),
-                         'calibrations': CALIBS, 'weight_draws': '2 on core and hand programs, 1 elsewhere', 'witness_batch': 4}}[tier]
+                         'calibrations': CALIBS, 'weight_draws': '2 on core and hand programs, 1 elsewhere', 'witness_batch': 4,
+                         'protocols': 'warm + integerized-cold (cold-write / cold-load alternating) on every configuration'}}[tier]
 
 
 # ----------------------------------------------------------------------------------------------
@@ -194,7 +207,8 @@ def cases(tier, seed):
         if k in seen:
             return
         seen.add(k)
-        out.append(dict({'prog': prog, 'a': list(a), 'w': list(w), 'tier': tier}, **kw))
+        # 'rot' only rotates the cold-integerization protocols over the configurations in the quick tier (see _cold_plan)
+        out.append(dict({'prog': prog, 'a': list(a), 'w': list(w), 'tier': tier, 'rot': len(out) + len(out) // 3}, **kw))
 
     allbits = [(a, w) for a in BITS for w in BITS]
     for p in _core_programs() + _hand_programs():
@@ -371,6 +385,51 @@ def calibrate(exp, x, frac):
     for h in hooks:
         h.remove()
     return len(done)
+
+
+# ----------------------------------------------------------------------------------------------
+# protocol "integerized cold": the clip values reach the model WITHOUT a forward pass and integerize_arch is called straight away
+# ----------------------------------------------------------------------------------------------
+COLD = ('cold-write', 'cold-load')
+
+
+def _cold_twin(prog, a, w, wseed, start, exp, spelling):
+    """a second, freshly built and exported copy of the same fake-quantized network (same seed: same architecture and weights) that receives
+    the calibrated clip values of `exp` without being run: 'cold-write' = the calibration results are written into the PACT quantizers
+    (clip_val.data.fill_), 'cold-load' = load_state_dict(exp.state_dict(), strict=True) (the deployment script: re-build the architecture,
+    load the fine-tuned checkpoint, integerize).  -> (twin, None | description of a state_dict difference)"""
+    from plinio.methods.mps.quant.quantizers import PACTAct
+    twin, _ = make_fq(prog, a, w, wseed, start)
+    if spelling == 'cold-load':
+        twin.load_state_dict(copy.deepcopy(exp.state_dict()), strict=True)
+    else:
+        src = dict(exp.named_modules())
+        for n, m in twin.named_modules():
+            if isinstance(m, PACTAct):
+                m.clip_val.data.fill_(float(src[n].clip_val.data[0]))
+    sa, sb = exp.state_dict(), twin.state_dict()
+    diff = None
+    if list(sa) != list(sb):
+        diff = f'keys differ: {sorted(set(sa) ^ set(sb))[:4]}'
+    else:
+        bad = [k for k in sa if not torch.equal(sa[k], sb[k])]
+        if bad:
+            diff = f'tensors differ: {bad[:4]}'
+    return twin, diff
+
+
+def _cold_plan(case, ci, bi):
+    """which cold spelling (or None) is explored IN ADDITION to the warm protocol for calibration index ci / back-end option index bi.
+    thorough: every configuration, spellings alternating; quick: every third (case, calibration) pair, one back-end option, both rotating"""
+    rot = case.get('rot')
+    if rot is None:
+        return None
+    if case.get('tier') == 'thorough':
+        return COLD[(rot + ci + bi) % 2]
+    n = rot + ci
+    if n % 3 != 0 or bi != (n // 3) % len(BACKENDS):
+        return None
+    return COLD[(n // 3 + n // 12) % 2]
 
 
 # ----------------------------------------------------------------------------------------------
@@ -636,12 +695,25 @@ def _hook_io(model, names):
     return rec, hooks
 
 
-def run_config(exp, x, opt, res, add, stats):
-    """one (calibrated fake-quantized model, back-end option) configuration"""
+def run_config(exp, x, opt, res, add, stats, cold=None):
+    """one (calibrated fake-quantized model, back-end option) configuration.
+    cold: None = protocol 'warm' (the model handed to integerize_arch is a deep copy of the calibrated model, which has run on the witness batch with
+    its final clip values); otherwise the COLD twin built by _cold_twin (same architecture and state_dict, NOT run since its clip values were
+    written): it is integerized straight away, before anything else is executed, and the fake-quantized reference is evaluated afterwards on
+    a separate deep copy of the calibrated model."""
     from plinio.methods.mps.quant.backends import integerize_arch
     from plinio.methods.mps.quant.backends.base import backend_factory
     backend = opt[0]
     kw = _kwargs(opt)
+    im_cold, arch_exc = None, None
+    if cold is not None:
+        victim = copy.deepcopy(cold)          # (a deep copy executes nothing: the twin stays cold)
+        victim.train()
+        try:
+            with torch.no_grad():
+                im_cold = integerize_arch(victim, _backend_enum(backend), kw)
+        except Exception as e:
+            arch_exc = e
     fq = copy.deepcopy(exp)
     fq.eval()
     fq_layers = _quant_layers(fq)
@@ -666,16 +738,17 @@ def run_config(exp, x, opt, res, add, stats):
         if n.endswith('input_quantizer'):
             inq = m.out_quantizer
     # --- the integer network
-    victim = copy.deepcopy(exp)
     # the model handed to integerize_arch is in TRAINING mode (a fake-quantized model straight from QAT, nobody called .eval()), and
     # the integer network is used as returned: it must be a deterministic inference network whatever mode its input was in
-    victim.train()
-    im = None
-    try:
-        with torch.no_grad():
-            im = integerize_arch(victim, _backend_enum(backend), kw)
-    except Exception as e:
-        arch_exc = e
+    im = im_cold
+    if cold is None:
+        victim = copy.deepcopy(exp)
+        victim.train()
+        try:
+            with torch.no_grad():
+                im = integerize_arch(victim, _backend_enum(backend), kw)
+        except Exception as e:
+            arch_exc = e
     layers = {}
     inputs = {}
     outputs = {}
@@ -726,7 +799,7 @@ def run_config(exp, x, opt, res, add, stats):
                     f'input quantizer of the integer network returns values in [{float(first_in.min())}, {float(first_in.max())}] (integral={_integral(first_in)}) for {p0} bits')
     else:
         # integerize_arch raised: build every integer layer separately to find the failing one(s)
-        victim = copy.deepcopy(exp)
+        victim = copy.deepcopy(exp if cold is None else cold)
         vm = dict(_quant_layers(victim))
         be = _backend_enum(backend)
         failing = []
@@ -854,17 +927,21 @@ def run_case(case, seed):
     cur = [None]
     ssig = _shape_sig(prog)
 
+    warm_sigs = set()
+
     def add(kind, sig, msg):
         res['outcomes'].add(kind)
+        warm_sigs.add(sig)
         res['violations'].append({'kind': kind, 'sig': sig, 'msg': f'{ssig} a={a}{"" if start is None else f" alternating from {start}"} w={w} {cur[0]}: {msg}',
                                   'case': dict(base_case, only=cur[0])})
 
     stats = {'cmp': 0, 'layers': 0, 'wide': 0, 'elements': 0, 'tight': 0, 'maxdiff': 0.0}
     only = case.get('only')
+    only_base = None if only is None else {k: v for k, v in only.items() if k != 'proto'}
     precs = None
     for frac in CALIBS:
         labels = [{'calib': frac, 'backend': _opt_label(o)} for o in BACKENDS]
-        if only is not None and only not in labels:
+        if only is not None and only_base not in labels:
             continue
         try:
             exp, x = make_fq(prog, a, w, wseed, start)
@@ -875,15 +952,45 @@ def run_case(case, seed):
             add('mps-conversion-raises', f'mps-conversion-raises/{ssig}', f'MPS() / export() raised {type(e).__name__}: {str(e)[:200]} (program outside the domain of C14: fix the program list)')
             continue
         precs = {n: (f['p_in'], f['p_out']) for n, f in ((n, _features(m)) for n, m in _quant_layers(exp))}
-        for o, label in zip(BACKENDS, labels):
-            if only is not None and only != label:
+        twins = {}
+        for bi, (o, label) in enumerate(zip(BACKENDS, labels)):
+            if only is not None and only_base != label:
                 continue
             cur[0] = label
             res['states'] += 1
+            warm_sigs.clear()
             nspan, ncmp = run_config(exp, x, o, res, add, stats)
             if nspan > 0:
                 res['nontrivial'].append(_key(prog, a, w, start, case.get('draw', 0), label))
             res['outcomes'].add('checked')
+            # --- the same configuration integerized COLD (protocol named in the label / signature)
+            spelling = only.get('proto') if only is not None else _cold_plan(case, CALIBS.index(frac), bi)
+            if spelling is None:
+                continue
+            wsigs = set(warm_sigs)
+            cur[0] = dict(label, proto=spelling)
+            if spelling not in twins:
+                twins[spelling] = _cold_twin(prog, a, w, wseed, start, exp, spelling)
+            twin, sd_diff = twins[spelling]
+            res['states'] += 1
+            if sd_diff:
+                add('reference-self-check', f'reference-self-check/cold-twin-state-dict/{spelling}',
+                    f'the state_dict of the cold twin differs from the calibrated model ({sd_diff}): the two are not the same fake-quantized network')
+                continue
+
+            def add_cold(kind, sig, msg):
+                # a violation that the warm protocol shows with the identical signature on this very configuration has the same cause and is
+                # reported there; anything else is specific to the cold protocol and is signed by it
+                if sig in wsigs:
+                    res['outcomes'].add('cold:same-violation-as-warm')
+                    return
+                add(kind, f'{sig}/integerized-cold({spelling})', f'[{spelling}: clip values reach the model without a forward pass, integerize_arch is called '
+                    f'straight away; the warm protocol does not show this on the same configuration] {msg}')
+
+            nspan, ncmp = run_config(exp, x, o, res, add_cold, stats, cold=twin)
+            if nspan > 0:
+                res['nontrivial'].append(_key(prog, a, w, start, case.get('draw', 0), cur[0]))
+            res['outcomes'].add('checked:' + spelling)
     res['outcomes'] = sorted(res['outcomes'])
     res['sample'] = {'prog': prog, 'a': a, 'w': w, 'start': start, 'layer_precisions(in,out)': precs, 'configs': res['states'], 'layer_comparisons': stats['cmp'],
                      'elements_compared': stats['elements'], 'elements_with_bound_le_2_levels': stats['tight'],
